@@ -63,6 +63,17 @@ def cases(tier, seed):
                             out.append(dict(type="solvelike", cfg=cfg))
                             if (start, every) in ((0, 1), (1, 2), (3, 3), (0, 3)) and ki == 0 and si in (0, 3):
                                 out.append(dict(type="solve", cfg=cfg))
+    # rar_parameters written in another key order, and generators that were drawn from (rebuilt as pytrees) before the
+    # refinement is initialised -- as happens when a generator is reused between two solve calls
+    for (start, every) in ((0, 1), (1, 2)):
+        for variant in ("omega_first", "pre_draw", "resolve"):
+            cfgv = _cfg("nonstatio", 2, start, every, SIZES[2], SIZES[0], keys[0], 1)
+            if variant == "omega_first":
+                out.append(dict(type="solvelike", cfg=dict(cfgv, rar_order="omega_first")))
+            elif variant == "pre_draw":
+                out.append(dict(type="solvelike", cfg=cfgv, pre_draw=True))
+            else:
+                out.append(dict(type="solve", cfg=cfgv, pre_draw=True))
     # the same schedule with a (one-unknown, one-equation) system loss
     for (kind, dim) in (("ode", 0), ("statio", 2), ("nonstatio", 2)):
         for (start, every) in ((0, 1), (1, 2)):
@@ -94,7 +105,9 @@ def run_case(case):
     with warnings.catch_warnings():
         warnings.simplefilter("ignore")
         g0, loss, params, _ = rarlib.build(cfg, record=False)
-    nontriv_key = f"{case['type']}|{ {k: v for k, v in cfg.items() if k != 'key'} }"
+    if case.get("pre_draw"):
+        g0, _ = g0.get_batch()  # the generator has been flattened / rebuilt once (dicts come back with sorted keys)
+    nontriv_key = f"{case['type']}|{case.get('pre_draw')}|{ {k: v for k, v in cfg.items() if k != 'key'} }"
     H = horizon(cfg)
 
     if case["type"] == "solve":
